@@ -821,6 +821,35 @@ class RtlCallWiringCase(Case):
     return cl
 
 
+class CountingLemmaCase(Case):
+  """The counting lemmas behind `_usage_profile` (bijective relabelling; k copies of a shuffled list), proved in Lean 4
+  against Mathlib (lean/Counting.lean) and re-checked by the Lean kernel on every run."""
+  contract_key = None
+  xcheck = False
+
+  def body(self, cfg, c):
+    import os, re, shutil, subprocess
+    root = os.path.dirname(os.path.dirname(os.path.abspath(__file__)))
+    src = os.path.join(root, 'lean', 'Counting.lean')
+    text = open(src).read()
+    cl = [('lean-file-has-no-sorry-axiom-or-admit', B.const(not re.search(r'\b(sorry|axiom|admit|native_decide)\b', text)))]
+    wanted = ['count_relabel', 'count_shuffle', 'count_replicated', 'count_later']
+    cl.append(('lean-file-states-the-lemmas', B.const(all(re.search(r'theorem\s+%s\b' % w, text) for w in wanted))))
+    ml = '/opt/veriftools/mathlib4'
+    if not (shutil.which('lake') and os.path.isdir(ml)):
+      return cl + [('undecided:lean-toolchain-not-available', E.FALSE)]
+    try:
+      pr = subprocess.run(['lake', 'env', 'lean', src], cwd=ml, capture_output=True, text=True, timeout=600)
+    except subprocess.TimeoutExpired:
+      return cl + [('undecided:lean-timed-out', E.FALSE)]
+    out = (pr.stdout or '') + (pr.stderr or '')
+    ok = pr.returncode == 0 and 'error' not in out and 'sorry' not in out
+    if not ok and ('object file' in out or 'unknown package' in out or 'could not' in out.lower()):
+      return cl + [('undecided:lean-environment-problem: %s' % out.strip().splitlines()[-1][:100], E.FALSE)]
+    cl.append(('counting-lemmas-accepted-by-the-lean-kernel%s' % ('' if ok else ': ' + out.strip().splitlines()[0][:120]), B.const(ok)))
+    return cl
+
+
 def _ensemble_config(cfg, lattices):
   cf = load.mod('configs')
   fc = [cf.FeatureConfig(name='f%d' % i) for i in range(cfg['features'])]
@@ -950,7 +979,7 @@ class CrystalsCase(Case):
     return cl
 
 
-CASES = {'rtl_call_wiring': RtlCallWiringCase(), 'rtl_prefix': RtlPrefixCase(), 'rtl_swap_body': RtlSwapBodyCase(), 'rtl_suffix': RtlSuffixCase(),
+CASES = {'counting_lemma': CountingLemmaCase(), 'rtl_call_wiring': RtlCallWiringCase(), 'rtl_prefix': RtlPrefixCase(), 'rtl_swap_body': RtlSwapBodyCase(), 'rtl_suffix': RtlSuffixCase(),
          'rtl': RtlCase(), 'random_ensemble': RandomEnsembleCase(), 'pairs_cover': PairsCoverCase(),
          'crystals': CrystalsCase()}
 
@@ -973,6 +1002,7 @@ def configs(tier, rng):
       for s in range(8 if tier == 'quick' else 200):
         jobs.append(('rtl', dict(base, grouped=grouped, mode='sample', sample=s)))
   # deductive part (every seed at once): prefix under the shuffle contract, swap-loop invariant, suffix
+  jobs.append(('counting_lemma', dict(file='lean/Counting.lean')))
   big = [([5], [7], 6, 4), ([3, 2], [4, 1, 2], 8, 3), ([1], [1], 7, 2), ([], [9], 3, 3), ([6], [], 4, 5), ([2, 2, 2], [3], 5, 2)]
   for (inc, unc, nl, rk) in rtl + big:
     if nl * rk < sum(inc) + sum(unc):
@@ -1070,8 +1100,9 @@ EVIDENCE = {
     'trusted_base': ['numpy: RandomState(seed) is deterministic and shuffle applies a permutation in place',
                      'list.sort is a permutation ordered by the key; itertools.combinations / product as documented',
                      'the random proxy covers every numpy random call the bounded builders make (seed, RandomState.shuffle, shuffle, choice)'],
-    'assumptions': ['counting lemma applied outside the solver: usage counts are invariant under a bijective relabelling of distinct '
-                    'inputs, and an evenly used later shuffle reproduces the counts of the list it shuffled',
+    'assumptions': ['the counting lemmas (bijective relabelling keeps usage counts; an evenly used later shuffle reproduces k times the '
+                    'counts of the list it shuffled) are proved in Lean 4 / Mathlib (lean/Counting.lean, re-checked every run); their '
+                    'APPLICATION to the ghost state in _usage_profile is Python code outside any prover',
                     'composition of prefix-post, loop invariant and suffix-post is argued in DESIGN.md, not machine-checked; the '
                     'suffix is checked for <= 3 lattices',
                     'random ensemble, pairs cover and Crystals: evaluation of concrete structures, not symbolic proof (bounded)'],
